@@ -11,11 +11,15 @@ def c03(chk, opts):
     r = tlc("Showdown", timeout=600, coverage=False)
     chk.add_tlc(r, "Showdown(single pass = argmin, <=6 players)")
     trace = chk.path("showdown.ndjson")
-    hx(["showdown", "--seed", chk.seed, "--n", 150000 if thorough else 10000, "--out", trace])
+    hx(["showdown", "--seed", chk.seed, "--n", 60000 if thorough else 10000, "--volume", 6000000 if thorough else 1000000, "--out", trace])
     r, events, bad = validate_independent(chk, "TraceShowdown", trace, "TraceShowdown", heap="8g", timeout=3000)
     stats = {"none": 0, "ties2": 0, "ties3plus": 0, "all_tie": 0, "players": {}}
     for e in events:
         ev = json.loads(e)
+        if ev["op"] == "volume":
+            stats["volume_calls"] = ev["calls"]
+            stats["volume_deviating"] = ev["deviating"]
+            continue
         n = len(ev["players"])
         stats["players"][n] = stats["players"].get(n, 0) + 1
         if any(c in ev["board"] for pl in ev["players"] for c in pl):
@@ -26,6 +30,8 @@ def c03(chk, opts):
             if ev["wl"] == n and n > 1: stats["all_tie"] += 1
     for i in bad:
         ev = json.loads(events[i - 1])
+        if ev["op"] != "showdown":
+            continue
         chk.violation("showdown not allowed by the specification: %s" % events[i - 1][:400],
                       {"op": "showdown", "board": ev["board"], "players": ev["players"]}, {"gen": ["showdown"], "events": [ev]})
     # vacuity guard: tie statistics come from recorded results, so they are only meaningful when TLC accepted every event
